@@ -59,7 +59,7 @@ class Sut:
         shutil.rmtree(self.base, ignore_errors=True)
 
     def run(self, capture: bytes, keylog, argv_opts, probes=None, pn_preset=None, cpu=120, extra_runs=None,
-            cwd_sub=None, env=None, infile_name="in.pcapng", keep=False, pre_out=None):
+            cwd_sub=None, env=None, infile_name="in.pcapng", keep=False, pre_out=None, s_missing=False):
         """argv_opts: list of extra CLI options (without -i/-o/-s).  keylog: bytes or None (no -s option).
         extra_runs: optional list of dict(capture, keylog, argv_opts) executed IN THE SAME PROCESS before/after
         (see C18); returns list of RunResult (one per run)."""
@@ -67,7 +67,8 @@ class Sut:
         rundir = os.path.join(self.base, "r%d" % self.n)
         os.makedirs(rundir)
         runs = []
-        specs = [dict(capture=capture, keylog=keylog, argv_opts=argv_opts, pre_out=pre_out)] + list(extra_runs or [])
+        specs = [dict(capture=capture, keylog=keylog, argv_opts=argv_opts, pre_out=pre_out, s_missing=s_missing)] + \
+            list(extra_runs or [])
         outs = []
         for j, sp in enumerate(specs):
             inp = os.path.join(rundir, "%d_%s" % (j, infile_name))
@@ -79,7 +80,9 @@ class Sut:
                 with open(outp, "wb") as f:
                     f.write(sp["pre_out"])
             argv = ["-i", inp, "-o", outp]
-            if sp["keylog"] is not None:
+            if sp.get("s_missing"):
+                argv += ["-s", os.path.join(rundir, "%d_no_such_keys.log" % j)]      # names a file that does not exist
+            elif sp["keylog"] is not None:
                 kp = os.path.join(rundir, "%d_keys.log" % j)
                 with open(kp, "wb") as f:
                     f.write(sp["keylog"])
